@@ -624,6 +624,9 @@ func handleInputStream(s *Session, handler Handler) (err error) {
 	if err := handler.HandleXMPP(rw, &start); err != nil {
 		return err
 	}
+	if rw.readErr != nil {
+		return rw.readErr
+	}
 
 	iqNeedsResp := typ == string(stanza.GetIQ) || typ == string(stanza.SetIQ)
 	// If the user did not write a response to an IQ, send a default one.
@@ -685,6 +688,19 @@ type responseChecker struct {
 	id        string
 	wroteResp bool
 	level     int
+	readErr   error
+}
+
+// Token remembers errors encountered while the handler reads from the stream
+// (other than the end of the element) so that a handler that ignores them
+// cannot make the session continue after eg. a stream error or restricted XML
+// nested in the element.
+func (rw *responseChecker) Token() (xml.Token, error) {
+	tok, err := rw.TokenReader.Token()
+	if err != nil && err != io.EOF {
+		rw.readErr = err
+	}
+	return tok, err
 }
 
 func (rw *responseChecker) EncodeToken(t xml.Token) error {
